@@ -285,6 +285,7 @@ def r5(cx):
     rule_open_after_repair(cx)
     rule_writer_open_ignores_content(cx)
     rule_append_after_validated_tail(cx)
+    rule_resume_offset_exact(cx)
 
 
 @rule("C12", "C12.R6", "fragment typing: the writer's choice and the reader's acceptance table describe the same language")
